@@ -138,6 +138,12 @@ def gen_history(seed, tier, classes=None, weights=None, n_ops=(6, 16),
                 classifier_bias=1, cp_fit_p=0.25, cp_invalid_p=0.0, calib_invalid_p=0.25,
                 store_bias=1, tiny_scale_p=0.0):
   r = substream(seed, "hist")
+  if tier == "thorough" and r.random() < 0.5:
+    # deeper exploration: half of the thorough runs use longer histories,
+    # more live handles and datasets up to the properties' dimension bound
+    n_ops = (n_ops[0] + 4, n_ops[1] * 2 + 4)
+    max_handles = max_handles + 2
+    dmax = max(dmax, 8)
   W = dict(DEFAULT_W)
   W.update(weights or {})
   classes = classes or ALL
